@@ -156,7 +156,7 @@ for p in props:
         na.append({"property_id": i, "reason": "check not built yet (build in progress, DESIGN.md §9 build order)"})
 m = {
  "version": 1,
- "setup_cmd": f"{PY} translate/gen.py && cd lean && lake build MagpyVerif driver MagpyVerif.Gen.CylSegGen MagpyVerif.Lemmas.KernTraceEq MagpyVerif.Props.C20b MagpyVerif.Props.C20c MagpyVerif.Props.C20d MagpyVerif.Props.C12b MagpyVerif.Props.C17b " + " ".join(f"MagpyVerif.Props.{i}" for i in sorted(TEXT)),
+ "setup_cmd": f"{PY} translate/gen.py && cd lean && lake build MagpyVerif driver MagpyVerif.Gen.CylSegGen MagpyVerif.Lemmas.KernTraceEq MagpyVerif.Props.C20b MagpyVerif.Props.C20c MagpyVerif.Props.C20d MagpyVerif.Props.C20g MagpyVerif.Props.C20f MagpyVerif.Props.C20e MagpyVerif.Props.C20h MagpyVerif.Props.C12b MagpyVerif.Props.C17b " + " ".join(f"MagpyVerif.Props.{i}" for i in sorted(TEXT)),
  "hooks": {"guard": "MAGPYLIB_VERIF", "enable": "no build step: checks import magpylib from /repo's working tree with MAGPYLIB_VERIF=1 set",
            "baseline_off_cmd": "cd /repo && /venv/bin/python -m pytest -ra -q -p no:cacheprovider --timeout=900 --continue-on-collection-errors",
            "source_commits": [], "add_only": True},
